@@ -1,7 +1,6 @@
 """C06 / C09 (continued): group, multitask and Cox datafits -- bounded symbolic proofs on the REAL methods.
 
-QuadraticGroup / LogisticGroup: n=2 samples, 3 features, groups {1,0},{2} stored as grp_indices=[1,0,2] (no group index equals a
-    feature index); dense and every CSC pattern of a 2x3 design restricted to 16 representative patterns.
+QuadraticGroup / LogisticGroup: n=2 samples, 3 features, groups {2,0},{1} stored as grp_indices=[2,0,1] (positions differ from feature indices); dense and every CSC pattern of a 2x3 design restricted to 16 representative patterns.
 QuadraticMultiTask: 2 samples, 2 features, 2 tasks; dense and every CSC pattern.
 Cox: 3 samples, EVERY tie pattern x censoring pattern x {Breslow, Efron}; the linear predictor is symbolic (all reals);
     value == negative log partial likelihood (risk-set definition), raw_grad == its gradient, gradient(_sparse) == X^T raw_grad,
@@ -12,7 +11,11 @@ import itertools
 import numpy as np
 
 from pv.core import add_task
-from .groups import GP, GI, GROUPS
+# layout where the positions of a group inside grp_indices differ, as a set, from its feature indices (an implementation that
+# drops the grp_indices indirection is then visible), and no group index equals the index of its only feature's position
+GP = np.array([0, 2, 3], dtype=np.int32)
+GI = np.array([2, 0, 1], dtype=np.int32)
+GROUPS = [[2, 0], [1]]
 
 GRP = 'skglm.datafits.group'
 
@@ -80,7 +83,7 @@ def group_datafit_task(T, which):
 
 
 for _w in ('QuadraticGroup', 'LogisticGroup'):
-    add_task(['C06', 'C10', 'C15'], f'group:{_w}[2x3,groups=(1,0),(2)]', group_datafit_task, strength='B', which=_w)
+    add_task(['C06', 'C10', 'C15'], f'group:{_w}[2x3,groups=(2,0),(1)]', group_datafit_task, strength='B', which=_w)
 
 
 def multitask_task(T, sparse):
@@ -424,3 +427,37 @@ def spectral_norm_task(T, iters):
 
 
 add_task('C09', 'sparse_ops:spectral_norm[iters=1]', spectral_norm_task, strength='B', iters=1)
+
+
+def target_domain_task(T, name):
+    """Poisson / Gamma initialize and initialize_sparse refuse targets outside the loss's domain (y < 0, resp. y <= 0) with a
+    ValueError, and accept every target inside it"""
+    import z3
+    from pv import sym, symrun
+    from pv.sym import explore
+    from .c06 import Env
+    symrun.install()
+    K = symrun.get('skglm.datafits.single_task', name)
+    e = Env(2, 2)
+    bad = (lambda t: t < 0) if name == 'Poisson' else (lambda t: t <= 0)
+    for meth in ('initialize', 'initialize_sparse'):
+        def run(meth=meth):
+            D = K()
+            if meth == 'initialize':
+                D.initialize(e.symX(), e.sym(e.y))
+            else:
+                data, indptr, indices = e.csc([[1, 1], [1, 1]])
+                D.initialize_sparse(data, indptr, indices, e.sym(e.y))
+            return 'accepted'
+        for k, pth in enumerate(explore(run)):
+            viol = z3.Or(*[bad(t) for t in e.y])
+            if pth.exc is not None:
+                ok_kind = pth.exc[0] == 'ValueError' and 'positive' in pth.exc[1]
+                T.prove(f'{meth}/refusal-only-for-invalid-targets@p{k}', pth.pc + pth.defs, viol, strength='B')
+                (T.ok if ok_kind else T.failed)(f'{meth}/refusal-is-an-explanatory-ValueError@p{k}', note=str(pth.exc), strength='B')
+            else:
+                T.prove(f'{meth}/accepted-only-valid-targets@p{k}', pth.pc + pth.defs, z3.Not(viol), strength='B')
+
+
+for _n in ('Poisson', 'Gamma'):
+    add_task(['C19', 'C06', 'C13'], f'single_task:{_n}.initialize(_sparse)/target-domain', target_domain_task, strength='B', name=_n)
